@@ -235,3 +235,37 @@ def preimage_prefix(lang, n):
     exact_n = rx.inter(lang, all_of_length(alpha, n))
     shorter = rx.inter(lang, lengths_lt(alpha, n))
     return rx.union(concat(exact_n, sigma_star_set(alpha, frozenset(range(alpha.n)))), shorter)
+
+
+def first_token(d, ws):
+    """{w.split()[0] : w in L, w not blank}"""
+    n = ENFA(d.alpha); N = len(d.trans)
+    for _ in range(3 * N): n.new()
+    E, M, D = 0, N, 2 * N      # eating leading ws, emitting token, discarding the rest
+    n.starts.add(E + d.start)
+    for s, row in enumerate(d.trans):
+        for b, t in row.items():
+            if b in ws:
+                n.edge(E + s, None, E + t)
+                n.edge(M + s, None, D + t)
+            else:
+                n.edge(E + s, b, M + t)
+                n.edge(M + s, b, M + t)
+            n.edge(D + s, None, D + t)
+        if d.accept[s]:
+            n.accepts.add(M + s); n.accepts.add(D + s)
+    return n.determinize()
+
+
+def used_blocks(d):
+    lv = live(d)
+    out = set()
+    # reachable and live
+    seen = {d.start}; st = [d.start]
+    while st:
+        s = st.pop()
+        for b, t in d.trans[s].items():
+            if t in lv:
+                out.add(b)
+                if t not in seen: seen.add(t); st.append(t)
+    return out if d.start in lv else set()
